@@ -69,7 +69,10 @@ def group_roles(gfn):
     r["ORDER"] = order[0] if order else "?"
     r["FIELDS"] = fields[0] if fields else "?"
     ordv = _assigned(gfn, lambda v: isinstance(v, ast.Subscript) and unparse(v.value) == r["ORDER"])
-    r["ORD"] = ordv[0] if ordv else "?"
+    # `idx = order.get(t)` + `if idx is None: raise` is the same lookup-with-membership-test in one step
+    ordg = _assigned(gfn, lambda v: isinstance(v, ast.Call) and unparse(v.func) == r["ORDER"] + ".get" and len(v.args) == 1 and not v.keywords)
+    r["ORD"] = ordv[0] if ordv else (ordg[0] if ordg else "?")
+    r["ORD_VIA_GET"] = bool(ordg) and not ordv
     prev = [n for n in _assigned(gfn, lambda v: unparse(v) == r["ORD"])]
     r["PREV"] = prev[0] if prev else "?"
     first = [n for n in _assigned(gfn, lambda v: isinstance(v, ast.Constant) and v.value is True) if n in _assigned(gfn, lambda v: isinstance(v, ast.Constant) and v.value is False)]
@@ -147,11 +150,13 @@ def run(ctx):
     SM = roles_v["SM"]
     if "?" in (ORDER, FIELDS, ORD, PREV, FIRST, SM, roles_v["REQ"], roles_h["REQ"]):
         raise AnalysisError(f"validator locals not recognised by role: group {roles_g}, message {roles_v}, header {roles_h}")
+    def not_member(fs):
+        return has(fs, rf"\w+ not in {ORDER}") or has(fs, rf"\w+ not in {FIELDS}") or (roles_g["ORD_VIA_GET"] and has(fs, rf"{ORD} is None"))
     matrix = {
         "unknown tag": (any_raise(rv, lambda fs: has(fs, r"\w+ not in self\._tag2field")),
-                        any_raise(rg, lambda fs: has(fs, rf"\w+ not in {ORDER}") or has(fs, rf"\w+ not in {FIELDS}"))),
+                        any_raise(rg, not_member)),
         "tag not allowed here": (any_raise(rv, lambda fs: has(fs, rf"\w+ not in {SM}")),
-                                 any_raise(rg, lambda fs: has(fs, rf"\w+ not in {ORDER}") or has(fs, rf"\w+ not in {FIELDS}"))),
+                                 any_raise(rg, not_member)),
         "field given as group": (any_raise(rv, lambda fs: has(fs, r"isinstance\(\w+, SchemaField\)") and has(fs, r"\w+\.is_group\(\w+\)")),
                                  any_raise(rg, lambda fs: has(fs, r"isinstance\(\w+, SchemaField\)") and has(fs, r"\w+\.is_group\(\w+\)"))),
         "group given as field": (any_raise(rv, lambda fs: has(fs, r"\w+\.is_group\(\w+\)", False) and (has(fs, r"isinstance\(\w+, SchemaGroup\)") or has(fs, r"isinstance\(\w+, SchemaField\)", False))),
@@ -329,7 +334,16 @@ def error_discipline(ctx, R3, repo, res, graphs):
                     idx = x.slice.id
                     sib = _sibling_dicts(fn, d)
                     wanted = {(f"{idx} in {k}", True) for k in sib} | {(f"{idx} not in {k}", False) for k in sib}
-                    ok, w = guarded(g, node.id, node.ast, x, wanted, [idx])
+                    # `v = k.get(idx)` followed by a test of `v is None` is the membership test of k in one step
+                    via = []
+                    for a in walk_no_nested(fn):
+                        if isinstance(a, ast.Assign) and len(a.targets) == 1 and isinstance(a.targets[0], ast.Name) and isinstance(a.value, ast.Call) \
+                                and isinstance(a.value.func, ast.Attribute) and a.value.func.attr == "get" and unparse(a.value.func.value) in set(sib) | {d} \
+                                and len(a.value.args) == 1 and unparse(a.value.args[0]) == idx and not a.value.keywords:
+                            via.append(a.targets[0].id)
+                    for v in via:
+                        wanted |= {(f"{v} is not None", True), (f"{v} is None", False)}
+                    ok, w = guarded(g, node.id, node.ast, x, wanted, [idx] + via)
                     if not ok:
                         ok, w = guarded(g, node.id, node.ast, x, {(f"{idx} not in {d}", False), (f"{idx} in {d}", True)}, [idx])
                     ctx.instance(R3, f"{q}[{d}[{idx}]]", ok,
